@@ -99,6 +99,9 @@ class Machine(object):
     kind = spec.get("kind", "mixed")
     t = spec.get("t", 2)
     idx = rs.randint(0, D.N, size=(m, t))
+    if spec.get("neg"):
+      # X[indices] semantics: a negative indicator counts from the end
+      idx = np.where(rs.rand(m, t) < 0.4, idx - D.N, idx)
     if kind in ("dups", "mixed") and m >= 3:
       idx[0, :] = idx[0, 0]              # identical points
       idx[1] = idx[2]                    # duplicated tuple
@@ -550,6 +553,9 @@ class Machine(object):
         else:
           arg[r_, 2] = arg[r_, 0]
           arg[r_, 3] = arg[r_, 1] + float(near) * u
+      if spec.get("grid"):
+        arg, info = _dyadic_probe(arg, D, t, spec)
+        self._last_probe_info = info
       lay = spec.get("layout")
       if lay == "F":
         arg = np.asfortranarray(arg)
@@ -573,8 +579,11 @@ class Machine(object):
     if method not in ("metric_call",) and not hasattr(h.est, method):
       ev["outcome"] = "skip"
       return
+    self._last_probe_info = None
     D, args, via = self.build_query(h, op)
     live.update(D=D, args=args, via=via, state_before=state_digest(h.est))
+    if self._last_probe_info:
+      live["probe_info"] = self._last_probe_info
     dg = [digest(a) for a in args]
     store0 = len(h.store.calls) if h.store else 0
     if method == "metric_call":
@@ -759,6 +768,59 @@ class Machine(object):
     ev["at"] = op["at"]
     ev["exc"] = op["exc"]
     self.cov["faults_armed"] += 1
+
+
+def _dyadic_probe(arg, D, t, spec):
+  """Snap a formed probe onto a dyadic grid (so that sums and differences of
+  its points are exact in floating point) and build, by translation, tuples
+  whose compared distances are *exactly* equal whatever the learned metric:
+    pairs       rows 2k, 2k+1:  (a, a+v), (a+s, a+s-v)
+    triplets    (a, a+v, a-v)
+    quadruplets (a, b, a+s, b+s)  and  (a, b, b+s, a+s)
+  With spec['far'] = e every point of a row is moved by the same offset of
+  magnitude 2^e grid steps (still exactly representable): the distances do not
+  change, but an implementation that loses the difference of large coordinates
+  does."""
+  arg = np.array(arg, dtype=float, copy=True)
+  sc = float(np.median(np.abs(D.S[np.abs(D.S) > 0]))) if np.any(D.S != 0) else 1.0
+  if not np.isfinite(sc) or sc <= 0:
+    sc = 1.0
+  step = 2.0 ** np.floor(np.log2(sc / 16.0))
+  arg = np.clip(np.round(arg / step), -2.0 ** 20, 2.0 ** 20) * step
+  m = len(arg)
+  ties = []
+  rs = np_stream(spec.get("seed", 0), "dyadic")
+  if spec.get("ties", True):
+    if t == 3:
+      for i in range(m):
+        if rs.rand() < 0.6:
+          v = arg[i, 1] - arg[i, 0]
+          arg[i, 2] = arg[i, 0] - v
+          ties.append(i)
+    elif t == 4:
+      for i in range(m):
+        u = rs.rand()
+        if u < 0.6:
+          s_ = arg[i, 2] - arg[i, 0]
+          if u < 0.3:
+            arg[i, 2], arg[i, 3] = arg[i, 0] + s_, arg[i, 1] + s_
+          else:
+            arg[i, 2], arg[i, 3] = arg[i, 1] + s_, arg[i, 0] + s_
+          ties.append(i)
+    elif t == 2:
+      for i in range(0, m - 1, 2):
+        if rs.rand() < 0.6:
+          v = arg[i, 1] - arg[i, 0]
+          s_ = arg[i + 1, 0] - arg[i, 0]
+          arg[i + 1, 0] = arg[i, 0] + s_
+          arg[i + 1, 1] = arg[i, 0] + s_ - v
+          ties.append(i)
+  far = spec.get("far")
+  if far:
+    for i in range(m):
+      off = np.round(rs.uniform(-1, 1, size=arg.shape[-1]) * 2.0 ** int(far)) * step
+      arg[i] = arg[i] + off          # the same offset for every point of the tuple
+  return arg, dict(ties=ties, far=int(far or 0), step=step)
 
 
 def _run_probes(est, probes):
